@@ -346,6 +346,8 @@ static int print_expr (hawk_t* hawk, hawk_nde_t* nde)
 				PUT_SRCSTR (hawk, HAWK_T("\\0"));
 			else if (tmp == '\'')
 				PUT_SRCSTR (hawk, HAWK_T("\\'"));
+			else if (tmp == '\\')
+				PUT_SRCSTR (hawk, HAWK_T("\\\\"));
 			else if (hawk_is_ooch_print(tmp))
 				PUT_SRCSTRN (hawk, &tmp, 1);
 		#if defined(HAWK_OOCH_IS_UCH)
@@ -381,6 +383,8 @@ static int print_expr (hawk_t* hawk, hawk_nde_t* nde)
 				PUT_SRCSTR (hawk, HAWK_T("\\0"));
 			else if (tmp == '\'')
 				PUT_SRCSTR (hawk, HAWK_T("\\'"));
+			else if (tmp == '\\')
+				PUT_SRCSTR (hawk, HAWK_T("\\\\"));
 			else if (hawk_is_bch_print(tmp))
 			{
 				hawk_ooch_t oc = (hawk_bchu_t)tmp;
